@@ -829,7 +829,8 @@ pub fn root_strategy(max_version: u8) -> impl Strategy<Value = RootCase> {
         list(light(), 12),
         list(doodad(), 24),
         list(
-            ("[A-Za-z0-9_$ ]{0,19}", u32ish(), u32ish())
+            // 20-byte name field: ASCII up to 19 characters, or names with two-byte UTF-8 letters up to 18 bytes
+            (prop_oneof![4 => "[A-Za-z0-9_$ ]{0,19}", 1 => "[A-Za-z_]{0,3}[äöüéèÄßñÐĀ][a-zäé0-9]{0,5}"], u32ish(), u32ish())
                 .prop_map(|(name, start, n)| SetCase { name, start, n }),
             8,
         ),
@@ -1063,7 +1064,7 @@ pub fn grid_root(version: u8, n: usize) -> RootCase {
         doodad_fixpoint: true,
         doodad_sets: (0..k(2))
             .map(|i| SetCase {
-                name: ["Set_$DefaultGlobal", "Set_Inn"][i % 2].to_string(),
+                name: ["Set_$DefaultGlobal", "Set_Décor_Ā"][i % 2].to_string(),
                 start: i as u32 * 2,
                 n: 2,
             })
